@@ -474,11 +474,93 @@ def native_ecu_request() -> tuple[bool, str]:
     return bool(problems), "; ".join(problems[:3]) or f"{len(rows)} rows match the history"
 
 
+def native_scanner_setup() -> tuple[bool, str]:
+    """A real UDSScanner that switches implicit logging off in its constructor, run through
+    entry_point() with a database and an in-memory transport, for the option combinations of
+    setup (properties / ping): nothing may be recorded."""
+    import asyncio
+    import logging
+    import shutil
+    import sqlite3
+    import tempfile
+    from pathlib import Path
+    logging.disable(logging.CRITICAL)
+    import gallia.command  # noqa: F401
+    import gallia.plugins.plugin as plugin
+    from gallia.command.uds import UDSScanner, UDSScannerConfig
+    from gallia.transports.base import BaseTransport
+
+    class Fake(BaseTransport, scheme="tcp-lines"):
+        def __init__(self, target: Any) -> None:
+            self.mutex = asyncio.Lock()
+            self.target = target
+            self.is_closed = False
+            self.pending: list[bytes] = []
+
+        @classmethod
+        async def connect(cls, target: Any, timeout: float | None = None) -> Any:
+            return cls(target)
+
+        async def close(self) -> None:
+            self.is_closed = True
+
+        async def write(self, data: bytes, timeout: float | None = None, tags: Any = None) -> int:
+            self.pending.append(bytes([data[0] + 0x40]) + data[1:3])
+            return len(data)
+
+        async def read(self, timeout: float | None = None, tags: Any = None) -> bytes:
+            if not self.pending:
+                raise TimeoutError
+            return self.pending.pop(0)
+
+    class Quiet(UDSScanner):  # type: ignore[misc]
+        CONFIG_TYPE = UDSScannerConfig
+
+        def __init__(self, config: Any) -> None:
+            super().__init__(config)
+            self.implicit_logging = False
+
+        async def main(self) -> None:
+            await self.ecu.tester_present(False)
+            await self.ecu.read_data_by_identifier(0xF190)
+    orig = plugin.load_transport
+    plugin.load_transport = lambda target: Fake  # type: ignore[assignment]
+    tmp = Path(tempfile.mkdtemp(prefix="c11s_"))
+    bad = None
+    try:
+        for props in (False, True):
+            for ping in (False, True):
+                db = tmp / f"p{int(props)}{int(ping)}.sqlite"
+                cfg = UDSScannerConfig(target="tcp-lines://127.0.0.1:1", db=db, properties=props,
+                                       ping=ping, tester_present=False, dumpcap=False,
+                                       artifacts_base=tmp / "art")
+                try:
+                    asyncio.run(Quiet(cfg).entry_point())
+                except BaseException as e:  # noqa: BLE001
+                    bad = f"properties={props} ping={ping}: entry_point raised {type(e).__name__}"
+                    break
+                con = sqlite3.connect(db)
+                n = con.execute("select count(*) from scan_result").fetchone()[0]
+                con.close()
+                if n:
+                    bad = (f"a scanner with implicit logging switched off recorded {n} exchanges "
+                           f"(properties={props}, ping={ping})")
+                    break
+            if bad:
+                break
+    finally:
+        plugin.load_transport = orig  # type: ignore[assignment]
+        shutil.rmtree(tmp, ignore_errors=True)
+    return bad is not None, bad or "nothing is recorded while implicit logging is off"
+
+
 def native_replay(unit: str, obligation: str, model: dict) -> tuple[bool, str]:
     """Insert a long request / the offending response class into a real sqlite database and read
     the row back."""
     if unit.startswith("ECU._request/"):
         return native_ecu_request()
+    if unit.startswith("scanner/"):
+        return native_scanner_setup()
     import asyncio
     import logging
     import os
